@@ -8,7 +8,7 @@ M=${MIRROR:-/var/tmp/mirror}
 patch="$1"; shift
 mkdir -p $M
 # the COMMITTED state of /verif (workers edit the working tree concurrently)
-mkdir -p $M/verif $M/stage && rm -rf $M/stage/* && git -C /verif archive HEAD | tar -x -C $M/stage && rsync -a --delete --exclude '.cache' --exclude 'lean/.lake' --exclude 'lean/BV/Gen' --exclude 'replays' $M/stage/ $M/verif/
+mkdir -p $M/verif $M/stage && rm -rf $M/stage/* && git -C /verif archive ${VERIF_REV:-HEAD} | tar -x -C $M/stage && rsync -a --delete --exclude '.cache' --exclude 'lean/.lake' --exclude 'lean/BV/Gen' --exclude 'replays' $M/stage/ $M/verif/
 if [ ! -d $M/repo/.git ]; then git clone -q /repo $M/repo; fi
 git -C $M/repo fetch -q /repo main && git -C $M/repo reset -q --hard FETCH_HEAD && git -C $M/repo clean -fdq -e target
 cp /repo/Cargo.lock $M/repo/Cargo.lock 2>/dev/null || true
